@@ -132,6 +132,80 @@ example : (letI := fieldNum ℚ id; (⟨⟨0, 0, 0⟩, ⟨2, 1, 1⟩⟩ : Aabb3 
   simp [Aabb3.canonicalSplit, V3.get, V3.set]; norm_num
 
 
+/-! ## `Aabb::difference_with_cut_sequence` -/
+
+/-- **C17 (`Aabb::difference_with_cut_sequence`)**: for every box `self` and every valid `rhs`, with `pieces` the returned
+fragments: (1) `pieces ∪ (self ∩ rhs) = self` as point sets; (2) the fragments are pairwise interior-disjoint;
+(3) no fragment overlaps the interior of `rhs` (they really are the difference). -/
+theorem aabb_difference_spec (a rhs : Aabb3 K) (hr : ValidBox rhs) :
+    letI := fieldNum K sq
+    (∀ p, BMem a p ↔ ((BMem a p ∧ BMem rhs p) ∨ ∃ f ∈ (a.differenceWithCutSequence rhs).1, BMem f p)) ∧
+    (a.differenceWithCutSequence rhs).1.Pairwise InteriorDisjoint ∧
+    (∀ f ∈ (a.differenceWithCutSequence rhs).1, InteriorDisjoint f rhs) := by
+  letI : Num K := fieldNum K sq
+  simp only [Aabb3.differenceWithCutSequence, Aabb3.differenceState]
+  split_ifs with hdis
+  · simp only [Bool.or_eq_true] at hdis
+    refine ⟨?_, List.pairwise_singleton _ _, ?_⟩
+    · intro p; simp only [List.mem_singleton, exists_eq_left]; tauto
+    · intro f hf; simp only [List.mem_singleton] at hf; subst hf
+      rcases hdis with (h | h) | h
+      · exact disjointOn_interior sq f rhs 0 h
+      · exact disjointOn_interior sq f rhs 1 h
+      · exact disjointOn_interior sq f rhs 2 h
+  · simp only [Bool.or_eq_true, not_or, Aabb3.diffDisjointOn, decide_eq_true_eq, not_le] at hdis
+    obtain ⟨⟨⟨h0a, h0b⟩, h1a, h1b⟩, h2a, h2b⟩ := hdis
+    have inv0 : DiffInv a rhs a [] := ⟨fun p => by simp, fun f hf => by simp at hf, fun f hf => by simp at hf, List.Pairwise.nil⟩
+    set st0 : Aabb3.DiffState K := { rest := a, pieces := [], cuts := [] } with hst0
+    obtain ⟨i0, m0, M0⟩ := diffStep_inv sq a rhs st0 0 inv0 h0a h0b (hr 0)
+    set st1 := Aabb3.diffStep rhs st0 0 with hst1
+    have e1a : st1.rest.mins.get (1 : Fin 3).val = a.mins.get (1 : Fin 3).val := by rw [m0 1]; simp [hst0]
+    have e1b : st1.rest.maxs.get (1 : Fin 3).val = a.maxs.get (1 : Fin 3).val := by rw [M0 1]; simp [hst0]
+    obtain ⟨i1, m1, M1⟩ := diffStep_inv sq a rhs st1 1 i0 (by rw [e1a]; exact h1a) (by rw [e1b]; exact h1b) (hr 1)
+    set st2 := Aabb3.diffStep rhs st1 1 with hst2
+    have e2a : st2.rest.mins.get (2 : Fin 3).val = a.mins.get (2 : Fin 3).val := by rw [m1 2, m0 2]; simp [hst0]
+    have e2b : st2.rest.maxs.get (2 : Fin 3).val = a.maxs.get (2 : Fin 3).val := by rw [M1 2, M0 2]; simp [hst0]
+    obtain ⟨i2, m2, M2⟩ := diffStep_inv sq a rhs st2 2 i1 (by rw [e2a]; exact h2a) (by rw [e2b]; exact h2b) (hr 2)
+    set st3 := Aabb3.diffStep rhs st2 2 with hst3
+    obtain ⟨cov, _, rhd, pw⟩ := i2
+    -- the final `rest` is `self ∩ rhs`
+    have hmins : ∀ j : Fin 3, st3.rest.mins.get j.val = max (a.mins.get j.val) (rhs.mins.get j.val) := by
+      intro j
+      rcases j with ⟨_ | _ | _ | n, hj⟩
+      · rw [m2 ⟨0, hj⟩, m1 ⟨0, hj⟩, m0 ⟨0, hj⟩]; simp [hst0]
+      · rw [m2 ⟨1, hj⟩, m1 ⟨1, hj⟩]; simp; exact congrArg (max · _) e1a
+      · rw [m2 ⟨2, hj⟩]; simp; exact congrArg (max · _) e2a
+      · omega
+    have hmaxs : ∀ j : Fin 3, st3.rest.maxs.get j.val = min (a.maxs.get j.val) (rhs.maxs.get j.val) := by
+      intro j
+      rcases j with ⟨_ | _ | _ | n, hj⟩
+      · rw [M2 ⟨0, hj⟩, M1 ⟨0, hj⟩, M0 ⟨0, hj⟩]; simp [hst0]
+      · rw [M2 ⟨1, hj⟩, M1 ⟨1, hj⟩]; simp; exact congrArg (min · _) e1b
+      · rw [M2 ⟨2, hj⟩]; simp; exact congrArg (min · _) e2b
+      · omega
+    have hrest : ∀ p, BMem st3.rest p ↔ (BMem a p ∧ BMem rhs p) := by
+      intro p
+      simp only [bmem_iff, hmins, hmaxs, max_le_iff, le_min_iff]
+      constructor
+      · intro h; exact ⟨fun j => ⟨(h j).1.1, (h j).2.1⟩, fun j => ⟨(h j).1.2, (h j).2.2⟩⟩
+      · rintro ⟨h, h'⟩ j; exact ⟨⟨(h j).1, (h' j).1⟩, (h j).2, (h' j).2⟩
+    refine ⟨?_, pw, rhd⟩
+    intro p
+    constructor
+    · intro h
+      rcases (cov p).mp h with h' | h'
+      · exact Or.inl ((hrest p).mp h')
+      · exact Or.inr h'
+    · rintro (⟨h, _⟩ | h)
+      · exact h
+      · exact (cov p).mpr (Or.inr h)
+
+
+example : (letI := fieldNum ℚ id; ((⟨⟨0, 0, 0⟩, ⟨4, 4, 4⟩⟩ : Aabb3 ℚ).differenceWithCutSequence ⟨⟨1, -1, 1⟩, ⟨2, 5, 9⟩⟩).1.length) = 3 := by
+  decide +kernel
+example : ValidBox (⟨⟨1, -1, 1⟩, ⟨2, 5, 9⟩⟩ : Aabb3 ℚ) := by
+  intro i; rcases i with ⟨_ | _ | _ | n, hi⟩ <;> simp [V3.get] <;> first | norm_num | omega
+
 /-! ## `clip_aabb_line`, `Aabb::{clip_line_parameters, clip_ray_parameters, clip_segment}` -/
 
 /-- **C17 (`clip_aabb_line`, `Some`)**: for a valid box and *every* origin and direction (zero components, zero vector,
